@@ -567,3 +567,20 @@ func JudgeMUS(n int, full, mus [][]int) string {
 	}
 	return ""
 }
+
+// SomeModels returns up to k models, visiting the assignments in a pseudo-random order that is a
+// pure function of seed (an odd-step walk over the 2^N assignments), and stopping early.
+func (p *Problem) SomeModels(k int, seed uint64) []uint32 {
+	size := uint64(p.space())
+	start := seed % size
+	step := (seed>>20)%size | 1
+	var out []uint32
+	a := start
+	for i := uint64(0); i < size && len(out) < k; i++ {
+		if p.Holds(uint32(a)) {
+			out = append(out, uint32(a))
+		}
+		a = (a + step) % size
+	}
+	return out
+}
